@@ -102,7 +102,8 @@ func jsonKind(raw []byte) (string, string) {
 
 func init() {
 	register(&Suite{
-		Prop: "C19",
+		Prop:     "C19",
+		Parallel: true,
 		Gen: func(c *Ctx) {
 			r := c.R
 			rounds := 1
